@@ -410,13 +410,15 @@ impl<'ast, 'decls> ResolveIterator<'ast, 'decls>
                 let new_position = {
                     if addr.address >= bank.addr_start
                     {
-                        &addr.address.checked_sub(
+                        // An unrepresentable position is reported
+                        // by `resolve_addr` on the final iteration
+                        addr.address.checked_sub(
                                 report,
                                 ast_addr.header_span,
                                 &bank.addr_start)?
                             .maybe_into::<usize>()
+                            .and_then(|p| p.checked_mul(bank.addr_unit))
                             .unwrap_or(0)
-                            * bank.addr_unit
                     }
                     else
                     {
